@@ -8,6 +8,10 @@ LEVEL = 'model_checking'
 def run(ctx):
     ctx.assumptions = ['x/net Framer/hpack is the independent server peer', 'client loop hooks (verif build tag) give quiescence',
                        'request/response bodies are fixed functions of (request, offset)']
+    # goroutine-level model of the write loop registering a request against the read loop processing a GOAWAY (defect K07);
+    # bound to the code by the gate-goaway scenarios, which park the real write loop between the model's steps
+    ctx.model_check('CliGoAwayHandshake', 'CliGoAwayHandshake.cfg', workers=1)
+    ctx.model_expect_violation('CliGoAwayHandshake', 'CliGoAwayHandshake_asfound.cfg', 'NotStranded', workers=1)
     cliprop.run(ctx, 'C11')
     rtfam.run(ctx, {'C11'})
 
